@@ -46,12 +46,15 @@ type c19Var struct {
 }
 
 var c19Vars = []c19Var{
-	{"sigCache", "chain/consensus", "", "sigCache", "DPoVP.chainLock"},
-	{"Confirmer.lastSig", "chain/consensus", "Confirmer", "lastSig", "DPoVP.chainLock"},
+	// Lock = the variable's nominal lock: the first of the `|` alternatives that exists in the tree
+	// (the dedicated mutexes were added by /repo commits f4ffd1d, 204ebea, 20ee480; before them the only
+	// candidate was the engine's chain lock / the store's RW)
+	{"sigCache", "chain/consensus", "", "sigCache", "consensus.sigCacheMu|DPoVP.chainLock"},
+	{"Confirmer.lastSig", "chain/consensus", "Confirmer", "lastSig", "Confirmer.lastSigLock|DPoVP.chainLock"},
 	{"ForkManager.head", "chain/consensus", "ForkManager", "head", "atomic"},
 	{"ChainDatabase.UnConfirmBlocks", "store", "ChainDatabase", "UnConfirmBlocks", "ChainDatabase.RW"},
 	{"ChainDatabase.LastConfirm", "store", "ChainDatabase", "LastConfirm", "ChainDatabase.RW"},
-	{"FileQueue.Offset", "store", "FileQueue", "Offset", "ChainDatabase.RW"},
+	{"FileQueue.Offset", "store", "FileQueue", "Offset", "FileQueue.putLock|ChainDatabase.RW"},
 	{"FileQueue.Index", "store", "FileQueue", "Index", "FileQueue.IndexRW"},
 	{"Manager.termList", "chain/deputynode", "Manager", "termList", "Manager.lock"},
 	{"Manager.evilDeputies", "chain/deputynode", "Manager", "evilDeputies", "Manager.edLock"},
@@ -91,6 +94,8 @@ type c19Fn struct {
 	calls    []*c19Call
 	spawns   []*c19Spawn
 	nclos    int
+	// every lock this function's own body takes (anywhere, nested blocks included)
+	locksTaken c19Mask
 }
 
 type c19Spawn struct {
@@ -120,6 +125,10 @@ type c19Scan struct {
 	all    []*c19Fn
 	named  []*types.Named
 	notes  []string
+	// the nominal lock chosen for each variable
+	nominal []string
+	// "<file relative to the repo>:<line>" of every direct access -> variable name (race report mapping)
+	accessAt map[string]string
 }
 
 func (s *c19Scan) Import(path string) (*types.Package, error) {
@@ -305,9 +314,20 @@ func (s *c19Scan) index() error {
 	if len(s.locks) > 64 {
 		return fmt.Errorf("more than 64 mutexes in the module (%d)", len(s.locks))
 	}
-	for _, v := range c19Vars {
-		if v.Lock != "atomic" && !seenLock[v.Lock] {
-			return fmt.Errorf("lock %s not found (no sync.Mutex/RWMutex field of that name)", v.Lock)
+	s.nominal = make([]string, len(c19Vars))
+	for i, v := range c19Vars {
+		if v.Lock == "atomic" {
+			s.nominal[i] = "atomic"
+			continue
+		}
+		for _, alt := range strings.Split(v.Lock, "|") {
+			if seenLock[alt] {
+				s.nominal[i] = alt
+				break
+			}
+		}
+		if s.nominal[i] == "" {
+			return fmt.Errorf("lock %s not found (no sync.Mutex/RWMutex of that name)", v.Lock)
 		}
 	}
 	sort.Slice(s.named, func(i, j int) bool {
@@ -318,6 +338,18 @@ func (s *c19Scan) index() error {
 		return a.Name() < b.Name()
 	})
 	return nil
+}
+
+func (s *c19Scan) noteAccess(pos token.Pos, v int) {
+	if s.accessAt == nil {
+		s.accessAt = map[string]string{}
+	}
+	p := s.fset.Position(pos)
+	rel, err := filepath.Rel(s.repo, p.Filename)
+	if err != nil {
+		rel = p.Filename
+	}
+	s.accessAt[fmt.Sprintf("%s:%d", rel, p.Line)] = c19Vars[v].Name
 }
 
 func (s *c19Scan) lockBit(name string) c19Mask {
@@ -447,6 +479,7 @@ func (w *c19Walker) stmt(st ast.Stmt, held c19Mask) c19Mask {
 	case *ast.ExprStmt:
 		if bit, m := w.lockCall(st.X); m != "" {
 			if m == "Lock" || m == "RLock" {
+				w.fn.locksTaken |= bit
 				return held | bit
 			}
 			return held &^ bit
@@ -667,6 +700,7 @@ func (w *c19Walker) expr(e ast.Expr, held c19Mask, wr map[ast.Node]bool) {
 		case *ast.SelectorExpr:
 			if i, ok := w.tracked(x); ok {
 				a := c19Access{v: i, held: held, write: wr != nil && wr[x]}
+				w.s.noteAccess(x.Pos(), i)
 				if m, ok := atomicBase[x]; ok {
 					a.atomic = true
 					a.write = m == "w"
@@ -676,6 +710,7 @@ func (w *c19Walker) expr(e ast.Expr, held c19Mask, wr map[ast.Node]bool) {
 			return true
 		case *ast.Ident:
 			if i, ok := w.tracked(x); ok && c19Vars[i].Type == "" {
+				w.s.noteAccess(x.Pos(), i)
 				w.fn.accesses = append(w.fn.accesses, c19Access{v: i, held: held, write: wr != nil && wr[x]})
 			}
 		}
@@ -976,7 +1011,7 @@ func (s *c19Scan) rows() ([]c19Row, map[string]string) {
 			}
 		}
 		switch {
-		case v.Lock == "atomic" && allAtomic[i]:
+		case s.nominal[i] == "atomic" && allAtomic[i]:
 			guards[v.Name] = "atomic"
 		case len(names) > 0:
 			guards[v.Name] = strings.Join(names, "+")
@@ -987,12 +1022,11 @@ func (s *c19Scan) rows() ([]c19Row, map[string]string) {
 	}
 	agg := map[k]bool{}
 	for _, a := range all {
-		v := c19Vars[a.key.v]
 		var ok bool
-		if v.Lock == "atomic" {
+		if s.nominal[a.key.v] == "atomic" {
 			ok = a.atomic || a.mask&common[a.key.v] != 0
 		} else {
-			ok = a.mask&(s.lockBit(v.Lock)|common[a.key.v]) != 0
+			ok = a.mask&(s.lockBit(s.nominal[a.key.v])|common[a.key.v]) != 0
 		}
 		if old, seen := agg[a.key]; seen {
 			agg[a.key] = old && ok
@@ -1012,6 +1046,9 @@ func (s *c19Scan) rows() ([]c19Row, map[string]string) {
 	return out, guards
 }
 
+// c19LastScan keeps the last successful scan (nominal locks, access positions) for the other parts of hx c19
+var c19LastScan *c19Scan
+
 func c19ScanRepo(repo string) ([]c19Row, map[string]string, error) {
 	s := &c19Scan{repo: repo, fset: token.NewFileSet(), pkgs: map[string]*c19Pkg{}, fake: map[string]*types.Package{}}
 	for _, r := range c19Roots {
@@ -1025,5 +1062,143 @@ func c19ScanRepo(repo string) ([]c19Row, map[string]string, error) {
 	s.collect()
 	s.link()
 	rows, guards := s.rows()
+	c19LastScan = s
 	return rows, guards, nil
+}
+
+// ---------------------------------------------------------------- repair analysis (`hx c19-lockpaths`)
+//
+// For a candidate function f and a lock L, decide whether taking L inside f can self-deadlock
+// (sync.Mutex / RWMutex are not re-entrant):
+//   mayHeld(f)    = locks held on SOME call path into f (union over all call sites, every function of the
+//                   module is a possible root holding nothing)  — L ∈ mayHeld(f) ⇒ a caller already holds L;
+//   mayAcquire(f) = locks taken by f or anything it (transitively, statically/CHA) calls
+//                   — L ∈ mayAcquire(callee of the new critical section) ⇒ the section would re-acquire L.
+// Function values passed as callbacks are NOT followed into the callee (they are attributed to the
+// function that defines them): callback-taking functions need a manual look at their call sites.
+
+func init() { subs["c19-lockpaths"] = c19LockPaths }
+
+func (s *c19Scan) acquired(fn *c19Fn) c19Mask {
+	return fn.locksTaken
+}
+
+func c19LockPaths(c *Ctx) {
+	s := &c19Scan{repo: c19Repo(), fset: token.NewFileSet(), pkgs: map[string]*c19Pkg{}, fake: map[string]*types.Package{}}
+	for _, r := range c19Roots {
+		if _, err := s.load(c19Mod + "/" + r); err != nil {
+			panic(err)
+		}
+	}
+	if err := s.index(); err != nil {
+		panic(err)
+	}
+	s.collect()
+	s.link()
+	names := func(m c19Mask) string {
+		var out []string
+		for b, l := range s.locks {
+			if m&(1<<uint(b)) != 0 {
+				out = append(out, l)
+			}
+		}
+		if len(out) == 0 {
+			return "{}"
+		}
+		return "{" + strings.Join(out, ", ") + "}"
+	}
+	// mayHeld: union fixpoint; pred keeps one witness (caller, lock set at the call site)
+	may := map[*c19Fn]c19Mask{}
+	type wit struct {
+		from *c19Fn
+		add  c19Mask
+	}
+	pred := map[*c19Fn]map[c19Mask]wit{}
+	changed := true
+	for changed {
+		changed = false
+		for _, f := range s.all {
+			for _, cl := range f.calls {
+				for _, t := range cl.callees {
+					nh := may[f] | cl.held
+					if may[t]|nh != may[t] {
+						if pred[t] == nil {
+							pred[t] = map[c19Mask]wit{}
+						}
+						for b := range s.locks {
+							bit := c19Mask(1) << uint(b)
+							if nh&bit != 0 && may[t]&bit == 0 {
+								pred[t][bit] = wit{f, cl.held & bit}
+							}
+						}
+						may[t] |= nh
+						changed = true
+					}
+				}
+			}
+		}
+	}
+	// mayAcquire: transitive
+	acq := map[*c19Fn]c19Mask{}
+	for _, f := range s.all {
+		acq[f] = f.locksTaken
+	}
+	changed = true
+	for changed {
+		changed = false
+		for _, f := range s.all {
+			for _, cl := range f.calls {
+				for _, t := range cl.callees {
+					if acq[f]|acq[t] != acq[f] {
+						acq[f] |= acq[t]
+						changed = true
+					}
+				}
+			}
+		}
+	}
+	want := strings.Split(os.Getenv("C19_FUNCS"), ",")
+	for _, f := range s.all {
+		if !inList(f.name, want) {
+			continue
+		}
+		fmt.Printf("%s (%s)\n  mayHeld    = %s\n  mayAcquire = %s\n", f.name, f.pkg, names(may[f]), names(acq[f]))
+		for b, l := range s.locks {
+			bit := c19Mask(1) << uint(b)
+			if may[f]&bit == 0 {
+				continue
+			}
+			// witness path backwards
+			var path []string
+			cur := f
+			for i := 0; i < 12 && cur != nil; i++ {
+				w, ok := pred[cur][bit]
+				if !ok {
+					break
+				}
+				mark := ""
+				if w.add != 0 {
+					mark = " [takes " + l + "]"
+				}
+				path = append(path, w.from.name+mark)
+				if w.add != 0 {
+					break
+				}
+				cur = w.from
+			}
+			fmt.Printf("  witness for %s: %s\n", l, strings.Join(path, " <- "))
+		}
+		var callers []string
+		for _, g := range s.all {
+			for _, cl := range g.calls {
+				for _, t := range cl.callees {
+					if t == f {
+						callers = append(callers, g.name+names(cl.held))
+					}
+				}
+			}
+		}
+		sort.Strings(callers)
+		fmt.Printf("  call sites (%d): %s\n", len(callers), strings.Join(callers, " "))
+	}
 }
